@@ -3,6 +3,7 @@ import GdVerif.Run.Valve
 import GdVerif.Run.GenValve
 import GdVerif.Run.Gs3
 import GdVerif.Run.Jc2m
+import GdVerif.Run.GenGs3
 /-
   gdmodel: the model behind a line protocol.
     gdmodel run        : reads `<id> <entry> <args…>` lines on stdin, prints `<id> <outcome>`
@@ -37,6 +38,7 @@ def main (args : List String) : IO UInt32 := do
     | some seed, some n =>
       let lines := match suite with
         | "valve" => genValve seed n
+        | "gs3" => genGs3 seed n
         | _ => []
       for l in lines do IO.println l
       return 0
